@@ -2,5 +2,6 @@ SPECIFICATION Spec
 CONSTANTS
   Defect = "none"
   MaxChanges = 0
+  FocusKeys = {}
 INVARIANT RelationWellFormed
 CHECK_DEADLOCK FALSE
